@@ -143,7 +143,7 @@ def _run_retained(case):
     want = want if pre is None else want + pre
     tol = 1e-9 if dtype == torch.float64 else 1e-4
     got = x.grad
-    if got is None or float((got - want).abs().max()) > tol * (1.0 + float(want.abs().max())):
+    if got is None or not (float((got - want).abs().max()) <= tol * (1.0 + float(want.abs().max()))):  # (NaN-proof)
         return {"ok": False, "sig": sig, "nontrivial": True, "key": "C06.retained_input",
                 "what": f"{c['fn']}: the .grad of a NON-LEAF input that retains grad is not (previous .grad +) its slice of the update: "
                         "autograd's retain_grad hook has already written the gradient(s) of the sweep(s) into it when Accumulate adds the update",
